@@ -78,7 +78,7 @@ StepNWrite(e) ==
   /\ g' = [g EXCEPT !.th[t] = [me EXCEPT !.att = att2, !.phase = IF ok THEN "written" ELSE "fresh", !.lastId = IF ok THEN e.id ELSE 0,
                                          !.tr = IF ok THEN "pending" ELSE trr, !.m = NoResp, !.own = FALSE],
                     !.nconn = c, !.acc = IF g.acc = c THEN 0 ELSE g.acc,
-                    !.conns = IF Known(c) THEN [@ EXCEPT ![c] = [@ EXCEPT !.out = IF ok THEN @ + 1 ELSE @, !.lastq = IF ok THEN e.q.k ELSE @,
+                    !.conns = IF Known(c) THEN [@ EXCEPT ![c] = [@ EXCEPT !.out = IF ok THEN @ + 1 ELSE IF e.res \in {"err", "closed"} THEN 0 ELSE @, !.lastq = IF ok THEN e.q.k ELSE @,
                                                                          !.nerr = IF ok THEN @ ELSE e.res,
                                                                          !.lastN = IF e.res = "timeout" /\ t = "c1" THEN "c1timeout" ELSE "other"]] ELSE @]
   /\ viol' = viol
@@ -106,7 +106,7 @@ StepNRead(e) ==
   /\ g' = [g EXCEPT !.th[t] = [me EXCEPT !.phase = "fresh", !.tr = IF ok THEN "ok" ELSE trr, !.m = IF ok THEN e.m ELSE NoResp, !.own = own,
                                          !.sawRemote = me.sawRemote \/ refusal],
                     !.nconn = c, !.acc = IF g.acc = c THEN 0 ELSE g.acc,
-                    !.conns = IF Known(c) THEN [@ EXCEPT ![c] = [@ EXCEPT !.out = IF ok /\ @ > 0 THEN @ - 1 ELSE @,
+                    !.conns = IF Known(c) THEN [@ EXCEPT ![c] = [@ EXCEPT !.out = IF ok /\ @ > 0 THEN @ - 1 ELSE IF e.res \in {"eof", "closed"} THEN 0 ELSE @,   \* EOF: nothing more can arrive
                                                                          !.nerr = IF ok THEN @ ELSE e.res,
                                                                          !.lastN = IF e.res = "timeout" /\ t = "c1" THEN "c1timeout" ELSE "other"]] ELSE @]
   /\ UNCHANGED <<viol, drift>>
